@@ -12,6 +12,7 @@ ExceptionGroup containing it).
 from __future__ import annotations
 
 import os
+import re
 
 from vkit import env, runner
 from vkit.errors import all_nodes, describe, exc_site, first_foreign, valid_load_error
@@ -159,6 +160,35 @@ def _safe(fn, fallback):
         return f"<unrenderable: {fallback}>"
 
 
+def _class_object_for_model(spec, v) -> bool:  # noqa: PLR0911
+    """Does the datum hold a class object at a position where the type expects the container of a model?"""
+    spec = tspec.strip(spec)
+    tag = spec[0]
+    if tag == "model":
+        if isinstance(v, dict) and v.get("$") == "type":
+            return True
+        if isinstance(v, dict) and v.get("$") == "d":
+            ftypes = {f["n"]: f["t"] for f in spec[1]["fields"]}
+            return any(isinstance(k, str) and k in ftypes and _class_object_for_model(ftypes[k], x) for k, x in v["v"])
+        return False
+    if tag == "optional":
+        return _class_object_for_model(spec[1], v)
+    if tag == "union":
+        return any(_class_object_for_model(c, v) for c in spec[1])
+    items = v if isinstance(v, list) else v.get("v") if isinstance(v, dict) and isinstance(v.get("v"), list) else None
+    if items is None:
+        return False
+    if tag in ("list", "set", "frozenset", "vtuple", "deque"):
+        return any(_class_object_for_model(spec[1], x) for x in items)
+    if tag == "abc":
+        return any(_class_object_for_model(spec[2], x) for x in items)
+    if tag == "tuple":
+        return any(_class_object_for_model(s_, x) for s_, x in zip(spec[1], items))
+    if tag in ("dict", "defaultdict", "mapping", "mutablemapping") and isinstance(v, dict) and v.get("$") in ("d", "custmap", "dictsub"):
+        return any(isinstance(kv, list) and len(kv) == 2 and _class_object_for_model(spec[2], kv[1]) for kv in items)
+    return False
+
+
 def check_case(ctx: runner.Ctx, case):
     if case.get("user"):
         return check_user_case(ctx, case)
@@ -206,7 +236,11 @@ def check_case(ctx: runner.Ctx, case):
         foreign = first_foreign(exc)
         how = "bare" if foreign is exc else ("loaderror_group_with_foreign_leaf" if isinstance(exc, LoadError)
                                              else "plain_group")
-        ctx.violation("non_loaderror", (type(foreign).__name__, exc_site(foreign), how), case,
+        discr = (type(foreign).__name__, exc_site(foreign), how)
+        if exc_site(foreign).startswith("<generated>:model_loader") and _class_object_for_model(t, case["datum"]):
+            # a class object sits where the mapping (or sequence) of a model is expected
+            discr = (*discr, "class_object_used_as_container")
+        ctx.violation("non_loaderror", discr, case,
                       f"type={tspec.text(t)} strict={case['strict']} debug={case['debug']} provs={case.get('provs')} "
                       f"layouts={case.get('layouts')} datum={_safe(lambda: repr(datum), case['datum'])}: "
                       f"{_safe(lambda: describe(exc), type(exc).__name__)} / foreign: "
@@ -421,7 +455,11 @@ def duck_table_cases():
                                "fields": [{"n": n, "t": ["int"], "d": dflt if opt else None} for n, opt in fs]}]
             for label, datum in {"getonly": {"$": "getonly"}, "rematch": {"$": "rematch"}, "sqlrow": {"$": "sqlrow"}, "opaque": {"$": "opaque"}, "int": 5,
                                  "str": "ab", "list": [1, 2], "none": None, "itemsonly": {"$": "itemsonly", "v": [["a", 1], ["b", 2]]},
-                                 "set": {"$": "set", "v": ["a", "b"]}, "custmap": {"$": "custmap", "v": [["a", 1], ["b", 2]]}}.items():
+                                 "set": {"$": "set", "v": ["a", "b"]}, "custmap": {"$": "custmap", "v": [["a", 1], ["b", 2]]},
+                                 # class objects carry the mapping / sequence methods of their instances unbound
+                                 "cls_dict": {"$": "type", "n": "dict"}, "cls_ordereddict": {"$": "type", "n": "ordereddict"},
+                                 "cls_mapping_abc": {"$": "type", "n": "mapping_abc"}, "cls_list": {"$": "type", "n": "list"},
+                                 "cls_int": {"$": "type", "n": "int"}}.items():
                 for wrap in ("root", "in_list", "in_model"):
                     if wrap == "root":
                         t, d = model, datum
@@ -503,7 +541,7 @@ def explore(ctx: runner.Ctx):
         n_dk += 1
         if i % ctx.nshards == ctx.shard:
             runner.guarded(ctx, lambda k: check_case(ctx, k), c)
-    ctx.mark_exhaustive(f"duck table: {n_dk} cases = dict-layout models (first looked-up field optional / required) x 10 root data that "
+    ctx.mark_exhaustive(f"duck table: {n_dk} cases = dict-layout models (first looked-up field optional / required) x 16 root data (five of them class objects) that "
                         f"are mappings by one method only, or not at all x (root, list element, model field) x 6 mode combinations")
     n_ue = 0
     for i, c in enumerate(unhashable_element_table_cases()):
